@@ -2,6 +2,7 @@ package mxj
 
 func init() {
 	vHarnesses["H_C16_order"] = H_C16_order
+	vHarnesses["H_C16_names"] = H_C16_names
 	vHarnesses["H_C16_order_seq"] = H_C16_order_seq
 	vHarnesses["H_C16_variants"] = H_C16_variants
 	vHarnesses["H_C16_maps"] = H_C16_maps
@@ -107,6 +108,13 @@ func H_C16_order_seq() {
 	doc := "<r y=\"1\" x=\"2\"><" + n1 + ">1</" + n1 + "><" + n2 + "/><!--c--><" + n3 + " q=\"3\"/></r>"
 	ms, err := NewMapXmlSeq([]byte(doc))
 	vAssert(err == nil, "order(seq): decodes")
+	if vChoose(2) == 1 {
+		// the same MapSeq after a trip through JSON: its sequence numbers are float64
+		j, _ := Map(ms).Json()
+		mj, jerr := NewMapJson(j)
+		vAssert(jerr == nil, "order(seq): a MapSeq survives JSON")
+		ms = MapSeq(mj)
+	}
 	indent := vChoose(2) == 1
 	enc := func() ([]byte, error) {
 		if indent {
@@ -216,4 +224,60 @@ func H_C16_maps() {
 	vAssert(gj == wantJ, "maps: JsonString is the concatenation of the per-Map Json encodings with the same flag")
 	vAssert(gji == wantJI, "maps: JsonStringIndent is the per-Map JsonIndent encodings with the same flag, one per line")
 	vCover("maps")
+}
+
+// ascending key order with names that extend one another (d, d1, d-, d.x, de) and names
+// that differ in case, for attributes and for child elements
+func H_C16_names() {
+	vResetDecOpts()
+	exts := []string{"", "1", "-", ".x", "e", "D"}
+	inner := map[string]interface{}{}
+	n := 2 + vChoose(2)
+	for i := 0; i < n; i++ {
+		e := exts[vChoose(len(exts))]
+		k := "d" + e
+		if e == "D" {
+			k = "D"
+		}
+		attr := vChoose(2) == 1
+		if attr {
+			k = "-" + k
+		}
+		_, dup := inner[k]
+		vAssume(!dup)
+		inner[k] = vNondetString(1, 1, "12")
+	}
+	m := Map{"r": inner}
+	var x []byte
+	var err error
+	if vChoose(2) == 1 {
+		x, err = m.XmlIndent("", " ")
+	} else {
+		x, err = m.Xml()
+	}
+	vAssert(err == nil, "names: encodes")
+	toks, ok := vRawTokens(x)
+	vAssert(ok, "names: output tokenises")
+	depth := 0
+	prev := ""
+	for _, t := range toks {
+		switch t.kind {
+		case 0:
+			depth++
+			if depth == 1 {
+				for i := 1; i < len(t.attrs); i++ {
+					vAssert(t.attrs[i-1][0] < t.attrs[i][0], "names: attributes are emitted in ascending key order")
+				}
+			}
+			if depth == 2 {
+				vAssert(prev < t.name, "names: child elements are emitted in ascending key order")
+				prev = t.name
+			}
+		case 1:
+			depth--
+		}
+	}
+	m2, derr := NewMapXml(x)
+	vAssert(derr == nil && vDeepEq(m2["r"], inner), "names: nothing is lost")
+	vCover("names")
 }
